@@ -10,6 +10,7 @@ import (
 	"go.minekube.com/common/minecraft/component/codec"
 	"go.minekube.com/common/minecraft/component/codec/legacy"
 	"go.minekube.com/common/minecraft/key"
+	"go.minekube.com/gate/pkg/command"
 	"go.minekube.com/gate/pkg/edition/java/proto/packet/plugin"
 	"go.minekube.com/gate/pkg/edition/java/proto/util"
 	"go.minekube.com/gate/pkg/edition/java/proto/version"
@@ -50,7 +51,10 @@ type (
 	}
 	// ServerConnectionProvider provides the currently connected server connection for a player.
 	ServerConnectionProvider interface {
+		// ConnectedServer returns the server connection of the responder's own player, nil if none.
 		ConnectedServer() ServerConnection
+		// PlayerServer returns the server connection of the given player, nil if none.
+		PlayerServer(Player) ServerConnection
 	}
 	// ServerConnection represents a server connection for a player.
 	ServerConnection interface {
@@ -64,6 +68,7 @@ type (
 		RemoteAddr() net.Addr
 		Disconnect(reason component.Component)
 		Protocol() proto.Protocol
+		SendMessage(msg component.Component, opts ...command.MessageOption) error
 	}
 	Server interface {
 		Name() string
@@ -163,34 +168,20 @@ func (r *bungeeCordMessageResponder) Process(message *plugin.Message) bool {
 	return true
 }
 
+// prepareForwardMessage returns the message to forward: the remaining payload
+// (channel name as UTF, length as short, data) is passed on unchanged.
 func (r *bungeeCordMessageResponder) prepareForwardMessage(in io.Reader) (forward []byte) {
-	channel, err := util.ReadUTF(in)
-	if err != nil {
-		return
-	}
-	messageLen, err := util.ReadInt16(in)
-	if err != nil {
-		return
-	}
-	msg := make([]byte, messageLen)
-	_, err = io.ReadFull(in, msg)
-	if err != nil {
-		return
-	}
-
-	forwarded := new(bytes.Buffer)
-	forwarded.WriteString(channel)
-	_ = util.WriteInt16(forwarded, messageLen)
-	forwarded.Write(msg)
-	return forwarded.Bytes()
+	forward, _ = io.ReadAll(in)
+	return forward
 }
 
+// sendServerResponse sends the response to the server of the responder's own player.
 func (r *bungeeCordMessageResponder) sendServerResponse(in []byte) {
-	if len(in) == 0 {
-		return
-	}
-	serverConn := r.ConnectedServer()
-	if serverConn == nil {
+	r.sendResponse(r.ConnectedServer(), in)
+}
+
+func (r *bungeeCordMessageResponder) sendResponse(serverConn ServerConnection, in []byte) {
+	if len(in) == 0 || serverConn == nil {
 		return
 	}
 	ch := Channel(serverConn.Protocol())
@@ -199,7 +190,8 @@ func (r *bungeeCordMessageResponder) sendServerResponse(in []byte) {
 
 func (r *bungeeCordMessageResponder) processForwardToPlayer(in io.Reader) {
 	r.readPlayer(in, func(player Player) {
-		r.sendServerResponse(r.prepareForwardMessage(in))
+		// forward to the server the target player is connected to
+		r.sendResponse(r.PlayerServer(player), r.prepareForwardMessage(in))
 	})
 }
 
@@ -209,7 +201,7 @@ func (r *bungeeCordMessageResponder) processForwardToServer(in io.Reader) {
 		return
 	}
 	forward := r.prepareForwardMessage(in)
-	if strings.EqualFold(target, "ALL") || strings.EqualFold(target, "ONLINE") {
+	if target == "ALL" || target == "ONLINE" {
 		var currentUserServer string
 		if s := r.ConnectedServer(); s != nil {
 			currentUserServer = s.Name()
@@ -274,7 +266,7 @@ func (r *bungeeCordMessageResponder) processPlayerCount(in io.Reader) {
 		count int
 		name  = "ALL"
 	)
-	if strings.EqualFold(target, name) {
+	if target == name {
 		count = r.PlayerCount()
 	} else {
 		s := r.Server(target)
@@ -353,8 +345,8 @@ func (r *bungeeCordMessageResponder) processMessage0(in io.Reader, decoder codec
 	}
 	if target == "ALL" {
 		r.BroadcastMessage(comp)
-	} else {
-		r.Server(target).BroadcastMessage(comp)
+	} else if player := r.PlayerByName(target); player != nil {
+		_ = player.SendMessage(comp)
 	}
 }
 func (r *bungeeCordMessageResponder) processMessage(in io.Reader) {
@@ -433,7 +425,7 @@ func (r *bungeeCordMessageResponder) processKickRaw(in io.Reader) {
 
 func (r *bungeeCordMessageResponder) processGetPlayerServer(in io.Reader) {
 	r.readPlayer(in, func(player Player) {
-		s := r.ConnectedServer()
+		s := r.PlayerServer(player) // the server of the requested player
 		if s == nil {
 			return
 		}
